@@ -77,6 +77,9 @@ func judgeMain(args []string) {
 			return er
 		}
 		x := parseFloats(o.X)
+		for len(x) < exprlib.ZBase+maxCalls {
+			x = append(x, 0) // trimmed tail: values of re-activated leaves that are 0 / unused
+		}
 		jo := jetObs{Val: parseFloats([]string{o.Val})[0], Order: o.Ord, N: o.Nn, Grad: parseFloats(o.Grad)}
 		for i := range o.Hess {
 			jo.Hess = append(jo.Hess, parseFloats(o.Hess[i]))
